@@ -166,7 +166,7 @@ def reduce_source(src, still_fails, budget_s=45, keep_defassign=False):
   return pre + '\n'.join(lines)
 
 
-PREAMBLE_GLOBALS = frozenset(['functools', 'LOG', '_r', '_Overflow', 'T', 'CM', 'Obj', 'LI', 'E1', 'E2', 'E3', 'B1', 'H', 'H2', 'R',
+PREAMBLE_GLOBALS = frozenset(['functools', 'LOG', '_r', '_Overflow', 'T', 'CM', 'Obj', 'LI', 'E1', 'E2', 'E3', 'B1', 'Falsy', 'FZ', 'NL', 'H', 'H2', 'R',
                               'RAISER', 'P1', 'P2', 'G1', 'G2', 'zG3', 'PH', 'malt', 'getcv', 'make', 'f'])
 
 
